@@ -1,3 +1,16 @@
+//! mc-graph: bounded-exhaustive checkers for graph planning and execution
+//! (C02, C03, C04, C24, C25, C26).
+
+mod c02;
+mod c03;
+mod prog;
+mod subject;
+
 fn main() {
-    vp_core::machinery_error("engine not built yet");
+    let prop = std::env::args().nth(1).unwrap_or_default();
+    match prop.as_str() {
+        "C02" => c02::run(vp_core::Ctx::from_env("C02")),
+        "C03" => c03::run(vp_core::Ctx::from_env("C03")),
+        _ => vp_core::machinery_error(&format!("mc-graph: unknown property '{prop}'")),
+    }
 }
